@@ -221,6 +221,45 @@ func c06Subtables(r *run.Run, maxLen int) {
 		})
 }
 
+// c06NestedContext: a contextual parent runs a chained contextual child whose backtrack / lookahead
+// context lies outside the parent's match (the input of a nested lookup is confined to the parent's
+// match, its context is the whole sequence), which in turn runs a simple lookup.
+func c06NestedContext(r *run.Run, maxLen int) {
+	alphabet := []glyph.ID{gen.GA, gen.GB, gen.GM}
+	parentPats := []int{2, 0, 1}   // A, AA, ABA
+	childPats := []int{3, 4, 5, 0} // B|AA, AA|B, B|AB|A, AA
+	r.Explore(explore.Config{Name: "C06.nested-context", Deadline: r.PartDeadline(0.2)},
+		fmt.Sprintf("lists [context parent -> chained context child at index 0 or 1 -> single substitution / ligature]: parent form (6) x parent pattern {A, AA, ABA} x child form (chained 1-3) x child pattern {B|AA, AA|B, B|AB|A, AA} (backtrack and lookahead reaching outside the parent's match) x child flags {none, ignore marks} x GSUB / GPOS, on all glyph sequences of length <= %d over {A,B,M}", maxLen),
+		func(c *explore.Ctx) {
+			gpos := c.Bool("gpos")
+			menu, ctxType, chainType := gen.GsubSimple, uint16(5), uint16(6)
+			leaf := 0
+			if gpos {
+				menu, ctxType, chainType = gen.GposSimple, 7, 8
+				leaf = 1
+			}
+			pform := c.Choose(6, "parent form")
+			ppat := gen.Patterns[parentPats[c.Choose(len(parentPats), "parent pattern")]]
+			at := c.Choose(2, "child at sequence index")
+			cform := 3 + c.Choose(3, "child form")
+			cpat := gen.Patterns[childPats[c.Choose(len(childPats), "child pattern")]]
+			cf := gen.Flags[c.Choose(2, "child flags")]
+			pt := ctxType
+			if pform >= 3 {
+				pt = chainType
+			}
+			ll := gtab.LookupList{
+				gen.MakeLookup(pt, gen.Flags[0], []gtab.Subtable{gen.Context(pform, ppat, []gtab.SeqLookup{{SequenceIndex: uint16(at), LookupListIndex: 1}})}),
+				gen.MakeLookup(chainType, cf, []gtab.Subtable{gen.Context(cform, cpat, []gtab.SeqLookup{{SequenceIndex: 0, LookupListIndex: 2}})}),
+				gen.MakeLookup(menu[leaf].Type, gen.Flags[0], menu[leaf].Sub()),
+			}
+			gd, _ := gen.Gdef(0)
+			desc := []string{fmt.Sprintf("0: %s [%s] 1@%d", gen.ContextForms[pform], ppat.Name, at), fmt.Sprintf("1: %s %s [%s] 2@0", gen.ContextForms[cform], cf.Name, cpat.Name), "2: " + menu[leaf].Name}
+			c.Sample(func() any { return desc })
+			compareShaping(c, ll, gd, []gtab.LookupIndex{0}, gpos, alphabet, maxLen, "nested context: "+gen.ContextForms[cform]+" under "+gen.ContextForms[pform], desc)
+		})
+}
+
 func init() {
 	Register("C06", func(r *run.Run) {
 		r.Rule = "lookup lists from the shared generator x ALL input sequences up to a length bound; library result compared with the token-list reference shaper; cases the specification + testcases sections 1-3 do not define are counted, not compared; non-trivial = lookup lists for which at least one compared sequence had a matching rule"
@@ -239,6 +278,7 @@ func init() {
 		}
 		// cheap parts first; the deviation-bounded nested lists are the largest and take what remains
 		c06Subtables(r, maxLen-1)
+		c06NestedContext(r, maxLen)
 		c06Simple(r, maxLen-1)
 		c06NestedFlags(r, maxLen-1)
 		c06Nested(r, maxLen, bound)
